@@ -2423,7 +2423,12 @@ def build_index_from_tree(
             )
 
         # Add file to index
-        if not honor_filemode or S_ISGITLINK(entry.mode):
+        if (
+            not honor_filemode
+            or S_ISGITLINK(entry.mode)
+            # a link written as a plain file (core.symlinks=false) stays a link
+            or (stat.S_ISLNK(entry.mode) and not stat.S_ISLNK(st.st_mode))
+        ):
             # we can not use tuple slicing to build a new tuple,
             # because on windows that will convert the times to
             # longs, which causes errors further along
@@ -2719,6 +2724,24 @@ def _transition_to_submodule(
     index[path] = index_entry_from_stat(st, entry.sha)
 
 
+def _index_entry_for_checked_out_file(
+    st: os.stat_result, entry_mode: int, sha: ObjectID, honor_filemode: bool
+) -> IndexEntry:
+    """Index entry for a file that was written from (or found equal to) a tree entry.
+
+    What the file system cannot tell is taken from the tree entry: the
+    executable bit when core.filemode is false, and that the entry is a link
+    when the link was written as a plain file (core.symlinks is false).
+    """
+    mode = None
+    if stat.S_ISLNK(entry_mode):
+        if not stat.S_ISLNK(st.st_mode):
+            mode = cleanup_mode(entry_mode)
+    elif not honor_filemode and stat.S_ISREG(st.st_mode) and stat.S_ISREG(entry_mode):
+        mode = cleanup_mode(entry_mode)
+    return index_entry_from_stat(st, sha, mode=mode)
+
+
 def _transition_to_file(
     object_store: "BaseObjectStore",
     path: bytes,
@@ -2768,7 +2791,9 @@ def _transition_to_file(
     if not needs_update:
         # Just update index - current_stat should always be valid here since we're not updating
         assert current_stat is not None
-        index[path] = index_entry_from_stat(current_stat, entry.sha)
+        index[path] = _index_entry_for_checked_out_file(
+            current_stat, entry.mode, entry.sha, honor_filemode
+        )
         return
 
     # Remove existing entry if needed
@@ -2811,7 +2836,9 @@ def _transition_to_file(
         tree_encoding=tree_encoding,
         symlink_fn=symlink_fn,
     )
-    index[path] = index_entry_from_stat(st, entry.sha)
+    index[path] = _index_entry_for_checked_out_file(
+        st, entry.mode, entry.sha, honor_filemode
+    )
 
 
 def _transition_to_absent(
